@@ -363,3 +363,294 @@ Section MachineProofs.
     - intros x. pose proof (S x) as K. simpl in K. unfold Indep.step in K; simpl in K. exact K.
   Qed.
 End MachineProofs.
+
+(* ------------------------------------------------------------------------------------ *)
+(* Part 2: the footprint table                                                           *)
+(* ------------------------------------------------------------------------------------ *)
+
+Lemma cell_eqb_spec : forall a b : cell, cell_eqb a b = true <-> a = b.
+Proof.
+  intros a b; destruct a, b; simpl; split; intro H; try discriminate; try congruence;
+    try (apply Nat.eqb_eq in H; congruence);
+    try (apply andb_true_iff in H; destruct H as [H1 H2]; apply Nat.eqb_eq in H1; apply Nat.eqb_eq in H2; congruence);
+    try (inversion H; subst; rewrite ?Nat.eqb_refl; reflexivity).
+Qed.
+
+Lemma overlap_false_iff (a b : list cell) :
+  overlap cell cell_eqb a b = false <-> (forall c, In c a -> ~ In c b).
+Proof.
+  split.
+  - apply overlap_false. exact cell_eqb_spec.
+  - intros H. unfold overlap. destruct (existsb (fun c => memb cell cell_eqb c b) a) eqn:E; [|reflexivity].
+    apply existsb_exists in E. destruct E as [c [Ha Hb]].
+    apply (memb_In cell cell_eqb cell_eqb_spec) in Hb. exfalso. exact (H c Ha Hb).
+Qed.
+
+Definition is_repaired (F : facts) : Prop :=
+  f_registries_locked F = true /\ f_notation_shares_formatter F = false /\
+  f_notation_shares_parser F = false /\ f_sorter_shares_collator F = false.
+
+Lemma shared_cells_repaired F d : is_repaired F -> shared_cells F d = [].
+Proof.
+  intros [_ [H1 [H2 H3]]]. unfold shared_cells. rewrite H1, H2, H3.
+  destruct (od_fam d), (od_via d); reflexivity.
+Qed.
+
+Lemma in_reg_cells d c : In c (reg_cells d) -> exists k t, c = CReg k t.
+Proof.
+  unfold reg_cells. rewrite in_map_iff. intros [k [H _]]. exists k, (od_ety d). symmetry; exact H.
+Qed.
+
+Lemma in_opt_cells o c : In c (opt_cells o) -> exists i, o = Some i /\ c = CInst i.
+Proof.
+  destruct o as [i|]; simpl; [|contradiction]. intros [H|[]]. exists i. split; [reflexivity | symmetry; exact H].
+Qed.
+
+Lemma insts_recv d : In (od_recv d) (insts d).
+Proof. unfold insts. left. reflexivity. Qed.
+Lemma insts_aux d i : od_aux d = Some i -> In i (insts d).
+Proof. unfold insts. intros H. rewrite H. right. apply in_or_app. left. left. reflexivity. Qed.
+Lemma insts_coll d i : od_coll d = Some i -> In i (insts d).
+Proof. unfold insts. intros H. rewrite H. right. apply in_or_app. right. left. reflexivity. Qed.
+
+(* after the repairs an operation touches only registry entries and the cells of its own instances *)
+Lemma touches_repaired F d c :
+  is_repaired F -> In c (touches cell (fp_of F d)) ->
+  (exists k t, c = CReg k t) \/ (exists i, In i (insts d) /\ c = CInst i).
+Proof.
+  intros HF. unfold fp_of, touches. rewrite (shared_cells_repaired F d HF).
+  assert (R : In c (reg_cells d) -> (exists k t, c = CReg k t) \/ (exists i, In i (insts d) /\ c = CInst i)).
+  { intros H. left. apply in_reg_cells in H. exact H. }
+  assert (V : CInst (od_recv d) = c -> (exists k t, c = CReg k t) \/ (exists i, In i (insts d) /\ c = CInst i)).
+  { intros H. right. exists (od_recv d). split; [apply insts_recv | symmetry; exact H]. }
+  assert (A : In c (opt_cells (od_aux d)) -> (exists k t, c = CReg k t) \/ (exists i, In i (insts d) /\ c = CInst i)).
+  { intros H. right. apply in_opt_cells in H. destruct H as [i [H1 H2]]. exists i. split; [apply insts_aux; exact H1 | exact H2]. }
+  assert (C : In c (opt_cells (od_coll d)) -> (exists k t, c = CReg k t) \/ (exists i, In i (insts d) /\ c = CInst i)).
+  { intros H. right. apply in_opt_cells in H. destruct H as [i [H1 H2]]. exists i. split; [apply insts_coll; exact H1 | exact H2]. }
+  assert (K : In c (if od_cold d then reg_cells d else []) -> (exists k t, c = CReg k t) \/ (exists i, In i (insts d) /\ c = CInst i)).
+  { destruct (od_cold d); [exact R | intros []]. }
+  destruct (od_fam d); cbn [reads writes app]; rewrite ?in_app_iff; cbn [In]; rewrite ?in_app_iff; intuition.
+Qed.
+
+(* when the classes exist already, it writes only cells of its own instances *)
+Lemma writes_repaired_warm F d c :
+  is_repaired F -> od_cold d = false -> In c (writes (fp_of F d)) ->
+  exists i, In i (insts d) /\ c = CInst i.
+Proof.
+  intros HF Hc. unfold fp_of. rewrite (shared_cells_repaired F d HF), Hc.
+  assert (V : CInst (od_recv d) = c -> exists i, In i (insts d) /\ c = CInst i).
+  { intros H. exists (od_recv d). split; [apply insts_recv | symmetry; exact H]. }
+  assert (A : In c (opt_cells (od_aux d)) -> exists i, In i (insts d) /\ c = CInst i).
+  { intros H. apply in_opt_cells in H. destruct H as [i [H1 H2]]. exists i. split; [apply insts_aux; exact H1 | exact H2]. }
+  assert (C : In c (opt_cells (od_coll d)) -> exists i, In i (insts d) /\ c = CInst i).
+  { intros H. apply in_opt_cells in H. destruct H as [i [H1 H2]]. exists i. split; [apply insts_coll; exact H1 | exact H2]. }
+  destruct (od_fam d); cbn [reads writes app]; rewrite ?in_app_iff; cbn [In]; rewrite ?in_app_iff; intuition; match goal with H : In _ [] |- _ => destruct H end.
+Qed.
+
+Lemma disjoint_insts_spec a b :
+  disjoint_insts a b = true -> forall i, In i (insts a) -> ~ In i (insts b).
+Proof.
+  unfold disjoint_insts. intros H i Ha Hb. apply negb_true_iff in H.
+  assert (E : existsb (fun i0 => existsb (Nat.eqb i0) (insts b)) (insts a) = true).
+  { apply existsb_exists. exists i. split; [exact Ha|]. apply existsb_exists. exists i. split; [exact Hb | apply Nat.eqb_refl]. }
+  congruence.
+Qed.
+
+Lemma disjoint_insts_sym a b : disjoint_insts a b = true -> disjoint_insts b a = true.
+Proof.
+  intros H. unfold disjoint_insts. apply negb_true_iff.
+  destruct (existsb (fun i => existsb (Nat.eqb i) (insts a)) (insts b)) eqn:E; [|reflexivity].
+  apply existsb_exists in E. destruct E as [i [Hb E]]. apply existsb_exists in E. destruct E as [j [Ha E]].
+  apply Nat.eqb_eq in E. subst j. exfalso. exact (disjoint_insts_spec a b H i Ha Hb).
+Qed.
+
+Lemma filter_unguarded F c l :
+  In c (filter (fun c0 => negb (guarded F c0)) l) -> In c l /\ guarded F c = false.
+Proof. rewrite filter_In. intros [H1 H2]. split; [exact H1 | apply negb_true_iff; exact H2]. Qed.
+
+Lemma half_racy F a b :
+  is_repaired F -> disjoint_insts a b = true ->
+  overlap cell cell_eqb (filter (fun c => negb (guarded F c)) (writes (fp_of F a)))
+                        (filter (fun c => negb (guarded F c)) (touches cell (fp_of F b))) = false.
+Proof.
+  intros HF Hd. apply overlap_false_iff. intros c Ha Hb.
+  apply filter_unguarded in Ha. apply filter_unguarded in Hb. destruct Ha as [Ha Hg]. destruct Hb as [Hb _].
+  assert (Ha' : In c (touches cell (fp_of F a))) by (unfold touches; apply in_or_app; right; exact Ha).
+  destruct (touches_repaired F a c HF Ha') as [[k [t E]]|[i [Hi E]]].
+  - subst c. simpl in Hg. destruct HF as [L _]. congruence.
+  - destruct (touches_repaired F b c HF Hb) as [[k [t E']]|[j [Hj E']]].
+    + congruence.
+    + assert (i = j) by congruence. subst j. exact (disjoint_insts_spec a b Hd i Hi Hj).
+Qed.
+
+Lemma half_warm F a b :
+  is_repaired F -> disjoint_insts a b = true -> od_cold a = false ->
+  overlap cell cell_eqb (writes (fp_of F a)) (touches cell (fp_of F b)) = false.
+Proof.
+  intros HF Hd Hc. apply overlap_false_iff. intros c Ha Hb.
+  destruct (writes_repaired_warm F a c HF Hc Ha) as [i [Hi E]].
+  destruct (touches_repaired F b c HF Hb) as [[k [t E']]|[j [Hj E']]].
+  - congruence.
+  - assert (i = j) by congruence. subst j. exact (disjoint_insts_spec a b Hd i Hi Hj).
+Qed.
+
+(* operations on distinct instances: no conflict outside the registry critical sections, and
+   no conflict at all once the classes exist *)
+Theorem distinct_instances_disjoint (F : facts) (a b : opdesc) :
+  is_repaired F -> disjoint_insts a b = true ->
+  racy_conflict F a b = false /\
+  (od_cold a = false -> od_cold b = false -> conflict F a b = false).
+Proof.
+  intros HF Hd. pose proof (disjoint_insts_sym a b Hd) as Hd'. split.
+  - unfold racy_conflict, conflicts_except. rewrite (half_racy F a b HF Hd), (half_racy F b a HF Hd'). reflexivity.
+  - intros Ca Cb. unfold conflict, conflicts. rewrite (half_warm F a b HF Hd Ca), (half_warm F b a HF Hd' Cb). reflexivity.
+Qed.
+
+(* THE obligation that ties the theorem to the sources: the facts regenerated by
+   tools/genparams.py from the Go files are those of the repaired tree *)
+Lemma current_facts_repaired : is_repaired current_facts.
+Proof. repeat split; vm_compute; reflexivity. Qed.
+
+Theorem distinct_instances_disjoint_current (a b : opdesc) :
+  disjoint_insts a b = true ->
+  racy_conflict current_facts a b = false /\
+  (od_cold a = false -> od_cold b = false -> conflict current_facts a b = false).
+Proof. apply distinct_instances_disjoint. exact current_facts_repaired. Qed.
+
+(* ---------- programs written against the table ---------- *)
+
+(* [sem] is ANY implementation of the operation descriptors whose actions respect the
+   table's footprints.  Threads whose operations are on pairwise distinct instances (and
+   whose classes exist) then commute under every interleaving. *)
+Definition threads_disjoint (ta tb : list opdesc) : Prop :=
+  forall a b, In a ta -> In b tb -> disjoint_insts a b = true.
+Definition warm (t : list opdesc) : Prop := forall a, In a t -> od_cold a = false.
+
+Lemma no_conflict_of_table F (sem : opdesc -> op cell) (ta tb : list opdesc) :
+  is_repaired F -> (forall d, op_fp (sem d) = fp_of F d) ->
+  warm ta -> warm tb -> threads_disjoint ta tb ->
+  no_conflict cell (map sem ta) (map sem tb).
+Proof.
+  intros HF Hfp Wa Wb Hd.
+  apply (threads_conflict_false cell cell_eqb cell_eqb_spec).
+  unfold threads_conflict.
+  destruct (existsb _ (map sem ta)) eqn:E; [|reflexivity].
+  apply existsb_exists in E. destruct E as [x [Hx E]]. apply existsb_exists in E. destruct E as [y [Hy E]].
+  apply in_map_iff in Hx. destruct Hx as [a [Ea Ha]]. apply in_map_iff in Hy. destruct Hy as [b [Eb Hb]].
+  subst x y. rewrite !Hfp in E.
+  destruct (distinct_instances_disjoint F a b HF (Hd a b Ha Hb)) as [_ K].
+  unfold conflict in K. rewrite (K (Wa a Ha) (Wb b Hb)) in E. discriminate.
+Qed.
+
+Theorem table_programs_independent F (sem : opdesc -> op cell) (dts : list (list opdesc)) (s0 : store cell) :
+  is_repaired F ->
+  (forall d, op_fp (sem d) = fp_of F d) -> (forall d, op_wf cell (sem d)) ->
+  (forall t, In t dts -> warm t) ->
+  ForallOrdPairs threads_disjoint dts ->
+  forall sched,
+    let ts := map (map sem) dts in
+    let c := run cell (init cell s0 ts) sched in
+    finished cell c ->
+    (forall i, res c i = snd (run_thread cell s0 (nth i ts []))) /\
+    snd (run_seq cell s0 ts) = map (fun t => snd (run_thread cell s0 t)) ts /\
+    (forall x, st c x = fst (run_seq cell s0 ts) x).
+Proof.
+  intros HF Hfp Hwf Hwarm Hpw sched ts c Hfin.
+  apply (indep_commutes cell cell_eqb cell_eqb_spec ts s0).
+  - intros t Ht. unfold ts in Ht. apply in_map_iff in Ht. destruct Ht as [dt [E _]]. subst t.
+    apply Forall_forall. intros o Ho. apply in_map_iff in Ho. destruct Ho as [d [E _]]. subst o. apply Hwf.
+  - unfold ts. clear ts c Hfin. induction Hpw as [|a l Ha Hl IH].
+    + constructor.
+    + simpl. constructor.
+      * apply Forall_forall. intros t Ht. apply in_map_iff in Ht. destruct Ht as [b [E Hb]]. subst t.
+        rewrite Forall_forall in Ha.
+        apply (no_conflict_of_table F sem a b HF Hfp).
+        -- apply Hwarm. left; reflexivity.
+        -- apply Hwarm. right; exact Hb.
+        -- apply Ha; exact Hb.
+      * apply IH. intros t Ht. apply Hwarm. right; exact Ht.
+  - exact Hfin.
+Qed.
+
+(* ---------- the tree before the repairs: the same table says "conflict" ---------- *)
+
+Definition str_a : opdesc := OD FFormat KList (VNota 1) 0 101 None None false.
+Definition str_b : opdesc := OD FFormat KList (VNota 1) 0 201 None None false.
+Definition srt_a : opdesc := OD FSort KSlice VDefault 2 101 (Some 102%nat) None false.
+Definition srt_b : opdesc := OD FSort KSlice VDefault 2 201 (Some 202%nat) None false.
+Definition par_a : opdesc := OD FParse KList (VNota 1) 0 101 None None false.
+Definition par_b : opdesc := OD FParse KList (VNota 1) 0 201 None None false.
+
+(* String()/FormatValue on two different lists of one element type: the two operations are
+   on distinct instances, yet both write the formatter inside the one notation; and there is
+   an interleaving of the two FormatValue calls (texts 123 and 45) in which both return a
+   corrupted text *)
+Theorem string_shared_refuted_prefix :
+  disjoint_insts str_a str_b = true /\
+  racy_conflict prefix_facts str_a str_b = true /\
+  (forall c, In c (thread_touches cell (format_program 1 [1; 2; 3])) -> In c (writes (fp_of prefix_facts str_a))) /\
+  (forall c, In c (thread_touches cell (format_program 1 [4; 5])) -> In c (writes (fp_of prefix_facts str_b))) /\
+  alone (format_program 1 [1; 2; 3]) = [0; 0; 0; 123] /\
+  alone (format_program 1 [4; 5]) = [0; 0; 45] /\
+  exists sched,
+    finishedb cell 2 (run cell (init cell zero_store [format_program 1 [1; 2; 3]; format_program 1 [4; 5]]) sched) = true /\
+    results2 (format_program 1 [1; 2; 3]) (format_program 1 [4; 5]) sched = ([0; 0; 0; 3], [0; 0; 1425]).
+Proof.
+  split; [reflexivity|]. split; [reflexivity|].
+  split; [simpl; intuition|]. split; [simpl; intuition|].
+  split; [reflexivity|]. split; [reflexivity|].
+  exists [0; 1; 0; 1; 1; 0; 0]%nat. split; vm_compute; reflexivity.
+Qed.
+
+(* the same for ParseSource through one notation *)
+Theorem parse_shared_refuted_prefix :
+  disjoint_insts par_a par_b = true /\ racy_conflict prefix_facts par_a par_b = true.
+Proof. split; reflexivity. Qed.
+
+(* two default sorters of one element type: distinct sorter instances and distinct slices,
+   yet both write the depth counter of the one collator behind the class's default ranker;
+   and there is an interleaving of two RankValues calls on values nested 10 deep in which
+   one of them ends in the depth-limit panic (-1) although neither does when run alone *)
+Theorem default_sorter_shared_refuted_prefix :
+  disjoint_insts srt_a srt_b = true /\
+  racy_conflict prefix_facts srt_a srt_b = true /\
+  (forall c, In c (thread_touches cell (rank_program 2 10)) -> In c (writes (fp_of prefix_facts srt_a))) /\
+  ~ In (-1) (alone (rank_program 2 10)) /\
+  exists sched,
+    finishedb cell 2 (run cell (init cell zero_store [rank_program 2 10; rank_program 2 10]) sched) = true /\
+    In (-1) (snd (results2 (rank_program 2 10) (rank_program 2 10) sched)).
+Proof.
+  split; [reflexivity|]. split; [reflexivity|].
+  split.
+  { intros c H. vm_compute in H. vm_compute. intuition. }
+  split.
+  { vm_compute. intuition; discriminate. }
+  exists (1%nat :: repeat 0%nat 11 ++ repeat 1%nat 20 ++ repeat 0%nat 10). split.
+  - vm_compute. reflexivity.
+  - vm_compute. intuition.
+Qed.
+
+(* after the repairs the very same pairs do not conflict *)
+Example repaired_pairs_clean :
+  racy_conflict repaired_facts str_a str_b = false /\ conflict repaired_facts str_a str_b = false /\
+  racy_conflict repaired_facts par_a par_b = false /\ conflict repaired_facts srt_a srt_b = false.
+Proof. repeat split; reflexivity. Qed.
+
+(* KNOWN FINDING kept in the table: Set.And/Or/Sans/Xor give the result the collator INSTANCE
+   of their first operand; searching the operand and the result from two goroutines are
+   operations on two distinct collections that write one collator's depth counter.  The
+   descriptor of such an operation names the collator it uses, so the instance sets overlap
+   and the theorem above does not (and must not) apply. *)
+Definition set_a : opdesc := OD FSearch KSet VColl 0 101 None (Some 103%nat) false.
+Definition set_r : opdesc := OD FSearch KSet VColl 0 201 None (Some 103%nat) false.
+Theorem derived_set_shares_collator_refuted :
+  od_recv set_a <> od_recv set_r /\ disjoint_insts set_a set_r = false /\
+  racy_conflict current_facts set_a set_r = true.
+Proof. split; [discriminate|]. split; reflexivity. Qed.
+
+(* non-vacuity of [distinct_instances_disjoint]: a pair satisfying its hypotheses, and the
+   footprints involved are not empty *)
+Example disjoint_example :
+  disjoint_insts str_a srt_b = true /\ writes (fp_of repaired_facts srt_b) <> [] /\
+  reads (fp_of repaired_facts str_a) <> [].
+Proof. split; [reflexivity|]. split; discriminate. Qed.
